@@ -85,6 +85,24 @@ CLAIMED = {
             "trusted: pyvc, z3, cvc5",
             "contract-based deductive verification: VCs generated from the AST of the real functions and their SQL text, "
             "discharged by z3 / cvc5"),
+    "C06": ("proof",
+            "Deductive proof on the real AsyncFIXConnection._process_resend (send_msg, _state_set inlined): the loop over "
+            "the recovered journal rows is proved by an inductive invariant (established / preserved / per-iteration "
+            "obligations, any number of rows): a session-level or declined row is never retransmitted; an accepted "
+            "application row is retransmitted exactly once under its own number with PossDupFlag=Y, OrigSendingTime = its "
+            "SendingTime, header stripped and nothing else touched; gap fills are forward SequenceReset-GapFills; no frame "
+            "consumes a new number; for journals without holes every frame's number is the one the peer expects next "
+            "(contiguous chain). Afterwards next outbound number, stored counter and state are restored and rows below "
+            "BeginSeqNo untouched; an invalid request changes nothing. Two genuine defects repaired (fix: 2e2bb09, d4be54d), "
+            "one known finding (C06-KF1: bounded EndSeqNo - tail rows deleted and gap-filled).",
+            "DESIGN.md 4/C06 and 9",
+            "assumed: I7 (a journaled OUTBOUND row k decodes to the message sent under k - rests on the encode/decode round "
+            "trip C01, not built), recover_messages contract (proved in C13), should_replay pure, journals with holes "
+            "(left by an earlier multi-number gap fill) only get the non-chain clauses; pre-states ACTIVE and "
+            "RESENDREQ_AWAITING; no native replay family yet for this property (refutations are reported with the model, "
+            "no-failing-input-found); trusted: pyvc incl. the invariant loop rule, z3",
+            "contract-based deductive verification: VCs generated from the AST of the real function with an inductive "
+            "loop invariant, discharged by z3"),
     "C09": ("proof",
             "Deductive proof of the single-endpoint part: (1) the real AsyncFIXConnection.__init__ over the real "
             "Journaler.create_or_load (sqlite3 contract model) restores exactly the stored counters + 1 for every journal "
